@@ -27,6 +27,10 @@ package redisemu
 //@ ghost gWakeKey string
 // the key a command will wake is fixed when its unblockKey is built
 //@ immutable unblockKey.keyName
+// a command's lock identity is issued by its database's counter (newDataStoreCommand, composite literal) and handed
+// on only by EXEC to the commands it replays on the database it owns; an id copied onto a command object of another
+// database would pass that database's re-entrancy test by accident
+//@ writers dataStoreCommand.id [C08,C09,C16] : fnExec
 // C05: ghost sets used to state the set algebra: the accumulated operand set (union of the
 // operands processed so far), its value before the current operand, the result's members
 // when the current operand was reached, and the empty set
@@ -221,8 +225,8 @@ package redisemu
 //@ ensures (result != nil) == flagHasOne(sk.flags, FLAG_KEY_TYPE_LIST)
 // a list reachable from the keyspace is well formed: its fields are only written by the list primitives, each of which preserves listWF (C03)
 //@ ensures free listwf: result != nil ==> listWF(result)
-// a stored list has far fewer than 2^56 nodes (memory)
-//@ ensures free listsize: result != nil ==> result.count < (1<<56)
+// a stored list has fewer than 2^40 nodes (a node takes more than 64 bytes: 2^40 of them are beyond the address space Go allocates from)
+//@ ensures free listsize: result != nil ==> result.count < (1<<40)
 
 //@ func storeKey.getHashTable
 //@ include accessor
@@ -266,13 +270,23 @@ package redisemu
 //@ ensures [C07] live: exists ==> !(now > sk.expiresAt)
 //@ ensures [C10] absent.mono: old(lookupAbsent) ==> lookupAbsent
 
+// C10 / C14: the watch check. A watch is examined in the database it was set in,
+// under the key it names, against the version recorded for it (the ghosts are
+// set by isAbortedExecUnlocked from the watch-table entry it is looking at).
+//@ ghost gWatchDs *dataStore
+//@ ghost gWatchKey string
+//@ ghost gWatchId uint64
 //@ func dataStore.hasChangedUnlocked
 //@ prop C08 C16 C07 C10
 //@ guards on
 //@ safetyprop C13
 //@ requires ds != nil && ds.data != nil
 //@ requires [C08,C16] locked: held
+//@ requires [C10,C14] own.watch: ds == gWatchDs && keyName == gWatchKey && id == gWatchId
 //@ modifies storeKey.lastAccess ghost.lookupAbsent ghost.now
+// changed iff the key is live now and carries another version, or is gone (expired counts as gone) and was there when watched
+//@ ensures internal [C10] verdict: result == ite(exists, id != sk.id, id != 0)
+//@ ensures internal [C10,C07] expired.absent: exists ==> !(now > sk.expiresAt)
 
 //@ func dataStore.copyStoreKeyUnlocked
 //@ prop C08 C16 C10
